@@ -1,1 +1,82 @@
-// harnesses for automerge/src/op_set2/change/batch.rs
+// G-INCR: increment successors (child module of automerge::op_set2::change::batch).
+// Included by /repo/rust/automerge/src/op_set2/change/batch.rs under cfg(kani).
+use super::*;
+
+fn any_opid() -> OpId {
+    let c: u32 = kani::any();
+    let a: u32 = kani::any();
+    OpId::new(c as u64, a as usize)
+}
+
+fn any_succ() -> (OpId, Option<i64>) {
+    (any_opid(), kani::any())
+}
+
+/// What `process_pred` computes from the normalised successors: the predecessor is deleted
+/// (overwritten) iff some successor is not an increment.
+fn deleted(succ: &[(OpId, Option<i64>)]) -> bool {
+    let mut d = false;
+    for (_, inc) in succ {
+        d |= inc.is_none();
+    }
+    d
+}
+
+/// A successor that is an increment (Some(n)) keeps a COUNTER predecessor alive and carries its
+/// amount; on a NON-counter predecessor it is an ordinary overwrite (becomes None => deleted).
+/// Ids and order of the successors are never touched. 3 successors, all ids, all amounts.
+#[kani::proof]
+#[kani::unwind(5)]
+fn incr_successors_normalized_3() {
+    let is_counter: bool = kani::any();
+    let mut s = [any_succ(), any_succ(), any_succ()];
+    let before = s;
+    normalize_increment_successors(is_counter, &mut s);
+    let mut i = 0;
+    while i < 3 {
+        assert!(s[i].0 == before[i].0);
+        if is_counter {
+            assert!(s[i].1 == before[i].1);
+        } else {
+            assert!(s[i].1.is_none());
+        }
+        i += 1;
+    }
+    if is_counter {
+        // a counter survives exactly when every successor is an increment
+        assert_eq!(deleted(&s), before[0].1.is_none() || before[1].1.is_none() || before[2].1.is_none());
+    } else {
+        // any successor of a non-counter value overwrites it, increment or not
+        assert!(deleted(&s));
+    }
+    kani::cover!(is_counter && !deleted(&s));
+    kani::cover!(!is_counter && before[0].1.is_some() && before[1].1.is_some() && before[2].1.is_some());
+}
+
+/// Same on every prefix length 0..=3 of the buffer: entries outside the slice are untouched and an
+/// empty successor list deletes nothing.
+#[kani::proof]
+#[kani::unwind(5)]
+fn incr_successors_prefix_only() {
+    let is_counter: bool = kani::any();
+    let n: usize = kani::any();
+    kani::assume(n <= 3);
+    let mut s = [any_succ(), any_succ(), any_succ()];
+    let before = s;
+    normalize_increment_successors(is_counter, &mut s[..n]);
+    let mut i = 0;
+    while i < 3 {
+        assert!(s[i].0 == before[i].0);
+        if i >= n || is_counter {
+            assert!(s[i].1 == before[i].1);
+        } else {
+            assert!(s[i].1.is_none());
+        }
+        i += 1;
+    }
+    if n == 0 {
+        assert!(!deleted(&s[..n]));
+    }
+    kani::cover!(n == 0);
+    kani::cover!(n == 2 && !is_counter && before[2].1.is_some() && before[0].1.is_some());
+}
